@@ -123,6 +123,9 @@ var T0 = time.Date(2001, 2, 3, 4, 5, 6, 0, time.UTC)
 var FracOf = map[string]time.Duration{"frac": 750 * time.Millisecond, "frac/f75.txt": 750 * time.Millisecond, "frac/f25.txt": 250 * time.Millisecond,
 	"frac/f999.txt": 999999999 * time.Nanosecond, "frac/f5.txt": 500 * time.Millisecond, "frac/sub": 600 * time.Millisecond, "frac/sub/g.txt": 900 * time.Millisecond, "frac/l": 800 * time.Millisecond}
 
+// BoundarySizes are the sizes of the sizes/s<N>.bin fixture files.
+var BoundarySizes = []int{511, 512, 513, 4095, 4096, 4097, 32767, 32768, 32769, 65535, 65536, 65537, 1<<20 - 1, 1 << 20, 1<<20 + 1}
+
 func mt(i int) time.Time { return T0.Add(time.Duration(i) * 1013 * time.Hour) }
 
 // Spec returns the standard tree; big is the size of share/big.bin.
@@ -178,6 +181,11 @@ func Spec(big int) []Node {
 		{Rel: "frac/sub", Kind: "dir", Mode: 0o755},
 		{Rel: "frac/sub/g.txt", Kind: "file", Mode: 0o644, Data: text("g", 60)},
 		{Rel: "frac/l", Kind: "symlink", Target: "f75.txt"},
+	}
+	// files whose sizes sit on block, buffer and streaming-threshold boundaries
+	ns = append(ns, Node{Rel: "sizes", Kind: "dir", Mode: 0o755})
+	for i, n := range BoundarySizes {
+		ns = append(ns, Node{Rel: fmt.Sprintf("sizes/s%d.bin", n), Kind: "file", Mode: 0o644, Data: Noise(n, uint64(100+i))})
 	}
 	for i := range ns {
 		ns[i].MTime = mt(i + 1).Add(FracOf[ns[i].Rel])
